@@ -136,9 +136,20 @@ except ImportError:
     pass
 
 
+_PROBE_CACHE = {}
+
+
 def replay(rep, path, env, repo, quiet=True):
     fn = rep.get("func", "")
     tmpl = TEMPLATES.get(fn)
+    if tmpl is None and globals().get("PROPERTY_PROBES") is not None and rep.get("property") in getattr(replay_templates, "PROBES", {}):
+        tmpl = globals()["PROPERTY_PROBES"]
+        key = ("probes", rep.get("property"), repo)
+        if key in _PROBE_CACHE:  # one interpreter run per property and check run
+            rep["replay"] = _PROBE_CACHE[key][0]
+            json.dump(rep, open(path, "w"), indent=1)
+            return _PROBE_CACHE[key][1]
+        rep["_probe_key"] = list(key)
     if tmpl is None:
         rep["replay"] = "no replay template for " + fn
         json.dump(rep, open(path, "w"), indent=1)
@@ -167,6 +178,9 @@ def replay(rep, path, env, repo, quiet=True):
         timed_out = "panic: test timed out" in out
         rep["replay"] = dict(cmd=" ".join(cmd), test_source=src, reproduced=bool(hits) or timed_out, output_tail=out[-1500:],
                              hits=hits[:5] + (["test timed out after 60s (hang)"] if timed_out else []))
+        pk = rep.pop("_probe_key", None)
+        if pk:
+            _PROBE_CACHE[tuple(pk)] = (rep["replay"], bool(hits) or timed_out)
         json.dump(rep, open(path, "w"), indent=1)
         if not quiet:
             print(out[-1500:])
